@@ -119,6 +119,17 @@ def as_int(v):
 
 
 def std_transfer(I, fr, t, c, pth):
+    r = _std_transfer(I, fr, t, c, pth)
+    if r:
+        return r
+    # Option / Result / Ordering / bool plumbing is value-transparent: available to every interpreter
+    try:
+        return result_transfer(I, fr, t, c, pth)
+    except NotDerivable:
+        return False
+
+
+def _std_transfer(I, fr, t, c, pth):
     name = c.get('name')
     trait = c.get('trait')
     d = c['def']
@@ -310,6 +321,12 @@ def std_transfer(I, fr, t, c, pth):
                         stop = 0 if name == 'all' else 1
                         sym_alts.append((Int(stop, 1), sym_prefix + [(r[1], stop)], []))
                         sym_prefix = sym_prefix + [(r[1], 1 - stop)]
+                        continue
+                    if name in ('find', 'position') and isinstance(r, tuple) and len(r) == 2 and r[0] == 'bool':
+                        # an undecided per-item test: the scan stops at the first item whose test holds
+                        hit = Opt('some', item) if name == 'find' else Opt('some', Int(k))
+                        sym_alts.append((hit, sym_prefix + [(r[1], 1)], []))
+                        sym_prefix = sym_prefix + [(r[1], 0)]
                         continue
                     if not isinstance(r, Int):
                         if name == 'find':
@@ -706,6 +723,45 @@ def result_transfer(I, fr, t, c, pth):
             fr.storev(dest, Opt('none', TOP))
             return True
         return False
+    if d.startswith('std::cmp::Ordering::then') and len(args) == 2:
+        a = fr.operand(args[0])
+        if isinstance(a, Agg) and a.kind and a.kind[0] == 'std::cmp::Ordering' and a.kind[1] in ('Less', 'Equal', 'Greater'):
+            if a.kind[1] != 'Equal':
+                fr.storev(dest, a)
+                return True
+            if d.endswith('then_with'):
+                cl = I._closure_value(fr, args[1])
+                if cl is None:
+                    return False
+                fr.storev(dest, I._call_closure_rw(fr, cl[0], cl[1], [], where))
+            else:
+                fr.storev(dest, fr.operand(args[1]))
+            return True
+        return False
+    if ('::bool>::then' in d or d.startswith('core::bool::<impl bool>::then') or d.startswith('std::bool::<impl bool>::then')) and len(args) == 2:
+        b = fr.operand(args[0])
+        if isinstance(b, Int):
+            if not b.v:
+                fr.storev(dest, Opt('none', TOP))
+            elif d.endswith('then_some'):
+                fr.storev(dest, Opt('some', fr.operand(args[1])))
+            else:
+                cl = I._closure_value(fr, args[1])
+                if cl is None:
+                    return False
+                fr.storev(dest, Opt('some', I._call_closure_rw(fr, cl[0], cl[1], [], where)))
+            return True
+        if isinstance(b, tuple) and len(b) == 2 and b[0] == 'bool' and d.endswith('::then') and I._fork_ctx is not None:
+            # an undecided condition: Some(f()) under it, None otherwise (two paths)
+            cl = I._closure_value(fr, args[1])
+            if cl is None:
+                return False
+            paths = I._call_closure_paths(fr, cl[0], cl[1], [], where)
+            alts = [(Opt('none', TOP), [(b[1], 0)], [])]
+            for p_, r_ in paths:
+                alts.append((Opt('some', r_), [(b[1], 1)] + list(p_.labels), list(p_.events)))
+            return I.fork_alternatives(fr, t, pth, alts)
+        return False
     is_res_m = d.startswith('std::result::Result::<T, E>::')
     is_opt_m = d.startswith('std::option::Option::<T>::')
     if not (is_res_m or is_opt_m) or not args:
@@ -751,6 +807,44 @@ def result_transfer(I, fr, t, c, pth):
         pl = Either(side(o, 1), e) if tag is None else (side(o, 1) if tag == 'none' else e)
         fr.storev(dest, Opt(tag, pl, neg_label(o.label)))
         return True
+    if is_opt_m and o.tag is not None and m in ('map_or', 'map_or_else', 'unwrap_or', 'unwrap_or_else', 'filter', 'and_then', 'or', 'or_else', 'unwrap_or_default'):
+        some = o.tag == 'some'
+        pl = side(o, 1)
+        if m == 'map_or' and len(args) == 3:
+            fr.storev(dest, call(args[2], [pl]) if some else fr.operand(args[1]))
+            return True
+        if m == 'map_or_else' and len(args) == 3:
+            fr.storev(dest, call(args[2], [pl]) if some else call(args[1], []))
+            return True
+        if m == 'unwrap_or' and len(args) == 2:
+            fr.storev(dest, pl if some else fr.operand(args[1]))
+            return True
+        if m == 'unwrap_or_else' and len(args) == 2:
+            fr.storev(dest, pl if some else call(args[1], []))
+            return True
+        if m == 'and_then' and len(args) == 2:
+            fr.storev(dest, call(args[1], [pl]) if some else Opt('none', TOP))
+            return True
+        if m == 'or' and len(args) == 2:
+            fr.storev(dest, o if some else fr.operand(args[1]))
+            return True
+        if m == 'or_else' and len(args) == 2:
+            fr.storev(dest, o if some else call(args[1], []))
+            return True
+        if m == 'filter' and len(args) == 2:
+            if not some:
+                fr.storev(dest, o)
+                return True
+            keep = call(args[1], [('byref', pl)])
+            if isinstance(keep, Int):
+                fr.storev(dest, o if keep.v else Opt('none', TOP))
+                return True
+            if isinstance(keep, tuple) and len(keep) == 2 and keep[0] == 'bool':
+                # undecided predicate: Some(v) under it, None otherwise
+                fr.storev(dest, Opt(None, Either(TOP, pl), keep[1]))
+                return True
+            return False
+        return False
     if m in ('unwrap', 'expect') and len(args) >= 1:
         good = 0 if is_res_m else 1
         if o.tag is not None:
